@@ -57,6 +57,9 @@ func (ml *MemLogger) GetCore() zapcore.Core {
 func (ml *MemLogger) GetLogs() []*observer.LoggedEntry {
 	var index = BufferSize - 1
 	mc := ml.core
+	// writers advance the cursor and fill the slots under the core's lock
+	mc.mu.RLock()
+	defer mc.mu.RUnlock()
 	logs := make([]*observer.LoggedEntry, BufferSize)
 	mc.r.Do(func(val interface{}) {
 		if val != nil {
